@@ -71,6 +71,11 @@ GROUPS += [
     G("fmt.err.search", "harness/C01/fmt.c", "h_fmt_err", FMT, level="N", backend="native", search=20000, fn=["beltFMTEncr", "beltFMTDecr"],
       note="native: out-of-range alphabet size is answered with ERR_BAD_INPUT; NOT proof"),
 ]
+ALLBELT = ["src/crypto/belt/belt_%s.c" % m for m in ("kwp", "wbl", "che", "dwp", "bde", "sde", "ctr", "mac", "lcl", "block", "ecb", "cbc", "cfb")] + \
+          ["src/core/mem.c", "src/core/blob.c", "src/core/util.c", "src/core/u32.c", "src/core/u64.c", "src/math/pp/pp_mul.c", "src/math/ww.c"]
+GROUPS.append(G("relations.kwp_che_bde_sde.search", "harness/C01/relations.c", "h_relations", ALLBELT, level="N", backend="native", search=60000,
+                fn=["beltKWPWrap", "beltKWPUnwrap", "beltCHEWrap", "beltCHEUnwrap", "beltDWPUnwrap", "beltBDEEncr", "beltBDEDecr", "beltSDEEncr", "beltSDEDecr"],
+                note="inversion and single-bit alteration relations (token, tag, header, associated data, key, iv); NOT proof and not a standard-level spec"))
 TRUSTED = ["stubs/belt_uf.c: uninterpreted block function with the inverse axiom (discharged separately on belt_block.c)"]
 ASSUMPTIONS = ["mode, MAC and DWP specs are the author's rendering of STB 34.101.31; validated natively against the real code, which passes the standard's test vectors in the repository's suite"]
 NOT_COVERED = ["CHE, WBL/KWP, hash, BDE/SDE, KRP, HMAC, PBKDF2 against the standard (only relations in C10/C11/C09)", "DWP under CBMC (attempted only)"]
